@@ -11,23 +11,42 @@ EXC_CLASS = {"KeyError": 0, "ValueError": 1, "IndexError": 2, "RuntimeError": 3,
 WAIT = "harness-wait-marker"
 
 
+class LinkLayerBusy(RuntimeError):
+    """raised by the scripted network stack's put() when the scenario says so"""
+
+
+def purpose_of(pm, sock):
+    """pm: "id" | "swap" (cross-connected sockets 0 <-> 1) | ("off", d)"""
+    if pm == "id":
+        return sock
+    if pm == "swap":
+        return 1 - sock
+    return sock + pm[1]
+
+
 def make_classes(m):
     Executor = m["executor"].Executor
     QNodeController = m["qnodeos"].QNodeController
     BaseNetworkStack = m["network_stack"].BaseNetworkStack
 
     class Stack(BaseNetworkStack):
-        def __init__(self):
+        def __init__(self, pm="id"):
             self.requests = []
+            self.pm = pm
+            self.refuse = False      # fault injection: the next put is refused
 
         def put(self, request):
+            if self.refuse:
+                self.refuse = False
+                raise LinkLayerBusy("link layer busy: request refused")
             self.requests.append(request)
 
         def setup_epr_socket(self, epr_socket_id, remote_node_id, remote_epr_socket_id, timeout=1.0):
             pass
 
         def get_purpose_id(self, remote_node_id, epr_socket_id):
-            return epr_socket_id
+            # the socket -> purpose assignment is part of the scenario
+            return purpose_of(self.pm, epr_socket_id)
 
     class Ex(Executor):
         _nid = 0
@@ -59,8 +78,8 @@ def make_classes(m):
 
 
 # events (python tuples):
-#   ("Create", (remote, purpose), tpk, vs, n, qarr, args, res, ws)
-#   ("Recv",   (remote, purpose), vs_or_None, n, qarr, res, ws)
+#   ("Create", (remote, local socket), tpk, vs, n, qarr, args, res, ws)
+#   ("Recv",   (remote, local socket), vs_or_None, n, qarr, res, ws)
 #   ("Resp",   dict(k, remote, purpose, flag, q, cid, seq, good, x, bell))
 #   ("Retry",) ("Poll", sid) ("Free", v) ("Alloc", v)
 #   ws: list of ("WAll", addr, lo, hi) | ("WAny", addr, lo, hi) | ("WSingle", addr, i)
@@ -72,17 +91,19 @@ def info_of(r):
 
 
 class EprWorld:
-    def __init__(self, m, classes, node_id, um_size):
+    def __init__(self, m, classes, node_id, um_size, pm="id"):
         self.m = m
         Stack, Ex, Ctrl = classes
         m["shared_memory"].SharedMemoryManager.reset_memories()
         self.ctrl = Ctrl("Alice")
-        self.ctrl.network_stack = Stack()
+        self.ctrl.network_stack = Stack(pm)
         self.ex = self.ctrl._executor
         self.ex._nid = node_id
         self.msg_id = 0
         self.gens = {}
         self.slots = {}
+        self.dead = set()       # subroutines that ended at an injected put() fault (the executor keeps
+                                # their entry in _subroutines: exceptions skip _clear_subroutine)
         list(self.ctrl.handle_netqasm_message(0, m["messages"].InitNewAppMessage(0, um_size)))
 
     # ------------------------------------------------------------------ subroutines as generators
@@ -140,22 +161,39 @@ class EprWorld:
         try:
             kind = ev[0]
             if kind == "Create":
-                _, (remote, purpose), tpk, vs, n, qarr, args, res, ws = ev
+                _, (remote, sock), tpk, vs, n, qarr, args, res, ws = ev
                 slot = self._slot()
                 t = self._fill(qarr, vs) if tpk else ""
                 t += (f"set R0 20\narray R0 @{args}\nset R0 {0 if tpk else 1}\nset R1 0\nstore R0 @{args}[R1]\n"
                       f"set R0 {n}\nset R1 1\nstore R0 @{args}[R1]\nset R0 {10 * n}\narray R0 @{res}\n"
-                      f"set R0 {remote}\nset R1 {purpose}\n" + (f"set R2 {qarr}\n" if tpk else "")
+                      f"set R0 {remote}\nset R1 {sock}\n" + (f"set R2 {qarr}\n" if tpk else "")
                       + f"set R3 {args}\nset R4 {res}\ncreate_epr R0 R1 {'R2' if tpk else 'C15'} R3 R4\n")
                 t += self._wait_text(slot, ws)
                 sid = self._start(t)
                 self.slots[sid] = slot
                 self._advance(sid)
+            elif kind == "CreateRefused":
+                _, (remote, sock), tpk, vs, n, qarr, args, res = ev
+                t = self._fill(qarr, vs) if tpk else ""
+                t += (f"set R0 20\narray R0 @{args}\nset R0 {0 if tpk else 1}\nset R1 0\nstore R0 @{args}[R1]\n"
+                      f"set R0 {n}\nset R1 1\nstore R0 @{args}[R1]\nset R0 {10 * n}\narray R0 @{res}\n"
+                      f"set R0 {remote}\nset R1 {sock}\n" + (f"set R2 {qarr}\n" if tpk else "")
+                      + f"set R3 {args}\nset R4 {res}\ncreate_epr R0 R1 {'R2' if tpk else 'C15'} R3 R4\n"
+                      f"set C14 0\nset C15 {10 * n}\nwait_all @{res}[C14:C15]\n")
+                self.ctrl.network_stack.refuse = True
+                sid = self._start(t)
+                try:
+                    self._advance(sid)
+                    raise AssertionError("harness: the refused create_epr did not fault")
+                except LinkLayerBusy:
+                    self.dead.add(sid)      # the instruction faulted at that line, the subroutine ended
+                finally:
+                    self.ctrl.network_stack.refuse = False
             elif kind == "Recv":
-                _, (remote, purpose), vs, n, qarr, res, ws = ev
+                _, (remote, sock), vs, n, qarr, res, ws = ev
                 slot = self._slot()
                 t = self._fill(qarr, vs) if vs is not None else ""
-                t += (f"set R0 {10 * n}\narray R0 @{res}\nset R0 {remote}\nset R1 {purpose}\n"
+                t += (f"set R0 {10 * n}\narray R0 @{res}\nset R0 {remote}\nset R1 {sock}\n"
                       + (f"set R2 {qarr}\n" if vs is not None else "")
                       + f"set R4 {res}\nrecv_epr R0 R1 {'R2' if vs is not None else 'C15'} R4\n")
                 t += self._wait_text(slot, ws)
@@ -210,7 +248,7 @@ class EprWorld:
         return dict(arrs={a: list(l) for a, l in ex._app_arrays[0]._arrays.items()},
                     um=list(ex._qubit_unit_modules[0]),
                     creq=qview(ex._epr_create_requests), rreq=qview(ex._epr_recv_requests),
-                    pend=pend, alive=sorted(ex._subroutines.keys()),
+                    pend=pend, alive=sorted(k for k in ex._subroutines.keys() if k not in self.dead),
                     blocked=sorted(self.gens.keys()))
 
 
@@ -223,8 +261,11 @@ class FifoRef:
     response is deferred while its virtual qubit is allocated; among the waiting responses the
     earliest arrived one that can be consumed goes first."""
 
-    def __init__(self, node, um_size):
+    def __init__(self, node, um_size, pm="id"):
         self.node = node
+        # the purpose the network stack assigned to each local socket (requests are matched on
+        # purpose ids, which is what responses carry)
+        self.purpose = {0: 0, 1: 1} if pm == "id" else {0: 1, 1: 0} if pm == "swap" else {0: pm[1], 1: 1 + pm[1]}
         self.q = {}
         self.pending = []
         self.arrays = {}
@@ -244,6 +285,7 @@ class FifoRef:
         return sid
 
     def request(self, key, creator, vs, n, qarr, res, ws, args=None, tpk=None):
+        key = (key[0], self.purpose[key[1]])       # (remote node, local socket) -> (remote node, purpose)
         if vs is not None:
             self.arrays[qarr] = list(vs)
         if args is not None:
@@ -321,6 +363,14 @@ class FifoRef:
         elif k == "Recv":
             _, key, vs, n, qarr, res, ws = ev
             self.request(key, False, vs, n, qarr, res, ws)
+        elif k == "CreateRefused":
+            # the network stack refused the request: nothing is outstanding because of it
+            _, key, tpk, vs, n, qarr, args, res = ev
+            if tpk:
+                self.arrays[qarr] = list(vs)
+            self.arrays[args] = [0 if tpk else 1, n] + [None] * 18
+            self.arrays[res] = [None] * (10 * n)
+            self.nsid += 1
         elif k == "Resp":
             self.response(ev[1])
         elif k == "Retry":
@@ -396,18 +446,22 @@ def coq_event(ev):
     k = ev[0]
     if k == "Create":
         _, key, tpk, vs, n, qarr, args, res, ws = ev
-        return (f"(Create {coq_key(key)} {coqb(tpk)} {lst(z(v) for v in vs)} {nat(n)} {z(qarr)} {z(args)} {z(res)} "
+        return (f"(ICreate {z(key[0])} {z(key[1])} {coqb(tpk)} {lst(z(v) for v in vs)} {nat(n)} {z(qarr)} {z(args)} {z(res)} "
                 f"{coq_ws(ws)})")
+    if k == "CreateRefused":
+        _, key, tpk, vs, n, qarr, args, res = ev
+        return (f"(ICreateRefused {z(key[0])} {z(key[1])} {coqb(tpk)} {lst(z(v) for v in vs)} {nat(n)} {z(qarr)} {z(args)} "
+                f"{z(res)})")
     if k == "Recv":
         _, key, vs, n, qarr, res, ws = ev
         vst = "None" if vs is None else f"(Some {lst(z(v) for v in vs)})"
-        return f"(Recv {coq_key(key)} {vst} {nat(n)} {z(qarr)} {z(res)} {coq_ws(ws)})"
+        return f"(IRecv {z(key[0])} {z(key[1])} {vst} {nat(n)} {z(qarr)} {z(res)} {coq_ws(ws)})"
     if k == "Resp":
-        return f"(Resp {coq_resp(ev[1])})"
+        return f"(IOther (Resp {coq_resp(ev[1])}))"
     if k == "Retry":
-        return "Retry"
+        return "(IOther Retry)"
     if k in ("Poll", "Free", "Alloc"):
-        return f"({k} {z(ev[1])})"
+        return f"(IOther ({k} {z(ev[1])}))"
     raise AssertionError(ev)
 
 
@@ -440,14 +494,18 @@ def coq_tree(node):
             f"{lst((coq_tree(k) for k in node['kids']), sep=';')})")
 
 
+def coq_pm(pm):
+    return "PId" if pm == "id" else "PSwap" if pm == "swap" else f"(POff {z(pm[1])})"
+
+
 def write_case_file(path, groups):
-    """groups: list of (node_id, um_size, [trees])"""
+    """groups: list of (pm, node_id, um_size, [trees])"""
     with open(path, "w") as f:
         f.write(CASE_HEADER)
-        for i, (nd, n, trees) in enumerate(groups):
+        for i, (pm, nd, n, trees) in enumerate(groups):
             f.write(f"Definition cases{i} : list tcase :=\n [" + ";\n  ".join(coq_tree(t) for t in trees) + "].\n")
-        f.write("Eval vm_compute in (" + " ++ ".join(f"failing {z(nd)} {nat(n)} cases{i}"
-                                                      for i, (nd, n, _) in enumerate(groups)) + ").\n")
+        f.write("Eval vm_compute in (" + " ++ ".join(f"failing {coq_pm(pm)} {z(nd)} {nat(n)} cases{i}"
+                                                      for i, (pm, nd, n, _) in enumerate(groups)) + ").\n")
 
 
 def parse_failing(out):
